@@ -9,6 +9,7 @@ CONSTANTS
   RNG = "local"
   AddrBytes = "minimal"
   NetBase = "masked"
+  DerivedMode = "once"
 VIEW view
 INVARIANTS TypeOK Contained WellFormed
 CHECK_DEADLOCK FALSE
